@@ -1,7 +1,7 @@
 CONSTANTS
   Variant = "key_always_shown"
   Family = "render"
-  Size = "q"
+  Size = "m"
 INIT Init
 NEXT Next
 CHECK_DEADLOCK FALSE
